@@ -11,26 +11,24 @@ import re
 import vf
 
 META = {
-    "text": "Theorems (Coq, no axioms) over a model of the KV-backed raft WAL (WriteRaftEntry's truncate-write-set-last "
-            "transaction, GetRaftEntry, last index, inverse block->index map, hard state, snapshot, identity, ClearWAL/ResetWAL, "
-            "WalDB.ReadAll) and of membership validation: after any history of well-formed append batches the entry read at every "
-            "index up to the last equals the reference log firstn(i0-1) ++ batch and is absent beyond (shorter, equal and longer "
-            "overwrites), ReadAll returns exactly that log with its blocks, every read is a function of the durable map only "
-            "(restart), hard state/snapshot/identity read back as written, the inverse map points to the most recent write of a "
-            "block; an add is refused when name, id, address or peer id duplicates an applied member, a removed id is never "
-            "re-added, an unknown id is not removed, and an accepted removal of a healthy node leaves healthy-1 >= (N-1)/2+1. "
-            "Also: replayWAL hands exactly that log and hard state to the consensus library's storage; every prefix of the write units "
-            "of SaveEntry leaves a consistent store (crash points; the opposite order is refuted); entriesToApply, the snapshot / "
-            "compaction index arithmetic of triggerSnapshot, HasWal, Cluster.Recover (removed ids survive a restart) and the single "
-            "proposal slot.  "
-            "Tied to /repo on every run by vm_compute evaluation of the model on the histories and membership cases the real code "
-            "was run on (restart after every operation and after every proper prefix of its journaled DB write units; all "
-            "progress/health vectors up to 5 nodes; request sequences with restarts through snapshot data).",
-    "note": "Trusted: Coq kernel/vm_compute; engine harness/engines/raftwal (in-package test of raftv2 + constructor shim in chain, "
-            "overlay build); gob/protobuf encodings are opaque (round trip observed, not proved); dbkey families disjoint; the "
-            "aergo-lib in-memory store stands for the DB (transaction atomicity below db.DB not modelled); fake raft Status for "
-            "health; stale inverse-map entries of truncated blocks are not removed by the code (listed in evidence, theorem is about "
-            "the most recent write).",
+    "text": "32 theorems (Coq, no axioms), all FULL under stated hypotheses, none refuted.  WAL (chaindbForRaft.go, waldb.go): after any "
+            "history of well-formed batches (what etcd/raft hands over) the entry at every index up to the last is the reference log "
+            "firstn(i0-1)++batch, absent beyond (shorter/equal/longer overwrite, ClearWAL, ResetWAL); ReadAll returns exactly that log with "
+            "its blocks; replayWAL hands it and the hard state to the library's storage; reads are functions of the store only; hard state "
+            "/ snapshot / identity round trips; HasWal; inverse map = most recent write; every prefix of SaveEntry's write units leaves a "
+            "consistent store (crash points; the opposite order is shown unsafe); ClearWAL/ResetWAL intermediates have no identity.  "
+            "raftserver.go: entriesToApply, triggerSnapshot index arithmetic.  Membership (cluster.go): duplicate name/id/address/peer id "
+            "refused, removed id never re-added (also after Recover from a snapshot), unknown id not removed, removal of a healthy node keeps "
+            "quorum, one proposal in flight.  Tie: in-package engine of raftv2 (overlay) runs the real functions on an in-memory journaling "
+            "store: everything read back before/after a restart and after every proper prefix of each operation's DB write units; complete "
+            "isEnable / entriesToApply families, validate cases, request sequences with restarts; model evaluated by vm_compute on the same "
+            "inputs; direct predicates: restart-same, reference log, round trips, ReadAll, replay, crash-consistent, HasWal, quorum, "
+            "add/remove accepted, removed-forgotten, two-proposals, snapshot-index.",
+    "note": "Trusted: Coq kernel + vm_compute; no axioms, no translator; engine harness/engines/raftwal (+ constructor shim in chain), "
+            "generators in this script.  Modelled, not verified: gob/protobuf/JSON encodings opaque; dbkey families disjoint; a DB "
+            "transaction / bulk is atomic (C06); raft Status faked; MemoryStorage is the library's.  Hypotheses: batches consecutive, above "
+            "the stored commit, commit inside the log (ill-formed batches are modelled literally).  Evidence, not findings: stale inverse "
+            "entries; removed members refused by raft id only; snapshot index 0 stops replay.",
     "technique": "Coq proof over Gallina WAL/membership model + vm_compute correspondence against real chain/raftv2 packages",
 }
 
@@ -406,7 +404,7 @@ def run(ctx):
                                "aergo-lib in-memory db", "engine harness/engines/raftwal + constructor shim in package chain",
                                "gob/protobuf/json encodings (opaque)", "case generator checks/C16.py"]
     ctx.assumptions = ["dbkey key families are pairwise disjoint byte strings",
-                       "a DB transaction / bulk is applied as a unit (no crash inside WriteRaftEntry; C06 covers crash points)",
+                       "a DB transaction / bulk flush / direct write is one durable unit; crashes between the units of one operation are executed (engine) and covered by crash_prefix_consistent, a crash inside a unit is not",
                        "append batches are as raft hands them over (consecutive indices, first index <= last+1) in the log theorems; "
                        "the model itself is literal for any batch",
                        "raft Status (progress map) is an input (faked in the engine)"]
